@@ -97,15 +97,11 @@ func (x *Exec) buildQuery(vc *VC, extra []string, getModel []string) string {
 		work = next
 	}
 	if usesStreq {
-		if _, ok := x.decls["streq"]; !ok {
-			declOut = append(declOut, "(declare-fun streq (Str Str) Bool)")
-		}
+		declOut = append(declOut, "(declare-fun streq (Str Str) Bool)")
 		axOut = append(axOut, streqAxioms...)
 	}
 	if usesStrlt {
-		if _, ok := x.decls["strlt"]; !ok {
-			declOut = append(declOut, "(declare-fun strlt (Str Str) Bool)")
-		}
+		declOut = append(declOut, "(declare-fun strlt (Str Str) Bool)")
 		axOut = append(axOut, strltAxioms...)
 	}
 	sortStrings(declOut)
